@@ -120,6 +120,7 @@ func c29body(c c29cfg) func(x *vsched.Exec) {
 		var extra error
 		var extraN int64
 		var follow res
+		cutLeftOpen := false
 		vsched.GoNamed("caller", func() {
 			b := e.client.B()
 			ctx, cancel := context.WithCancel(context.Background())
@@ -157,6 +158,9 @@ func c29body(c c29cfg) func(x *vsched.Exec) {
 			extraN, extra = s.WriteTo(w)
 			for _, cn := range e.net.Conns {
 				cn.CutAt = 0 // the fault belongs to the first stream only
+				if cn.Faulted == "cut" && !cn.ClosedByClient() {
+					cutLeftOpen = true // judged below; taken now, before the follow-up stream touches the pool
+				}
 			}
 			// the pool must still work and must not leak bytes of the previous stream
 			for try := 0; try < 3; try++ { // a pooled connection may have been dropped by the server meanwhile: that costs one failed attempt
@@ -234,6 +238,13 @@ func c29body(c c29cfg) func(x *vsched.Exec) {
 			}
 			if !broken && len(results) != len(c.kinds) {
 				x.Fail("not exactly one WriteTo per command", "%d results for %d commands: %s", len(results), len(c.kinds), x.Outcome)
+			}
+			if broken {
+				// the client has seen that a reply could not be consumed completely: that connection must be closed before it
+				// is given back, whatever the error value was (a clean close by the peer reads as io.EOF)
+				if cutLeftOpen {
+					x.Fail("connection not closed although a reply could not be consumed completely", "the stream's connection was cut inside a reply (the caller got %v) and was still open on the client side when the stream had ended: it went back to the pool as it was; %s", results[len(results)-1].err, x.Outcome)
+				}
 			}
 			if extra == nil || extraN != 0 {
 				x.Fail("WriteTo after the last reply did not fail", "extra n=%d err=%v", extraN, extra)
